@@ -312,7 +312,6 @@ Variable Pv : V -> vname -> Prop.
 Variable Lof : V -> vmap.         (* the running maps with which the block is entered *)
 Variable b : block.
 Variable ent0 : V -> cstore.      (* the stores with which the visitors enter the block *)
-Variable allphis : list stmt.     (* the leading phis of the block *)
 
 Definition arg_at (x : vname) (args : list vname) (r : V) : option vname :=
   match vget (Lof r) (key_of x) with Some n => phi_arg x n args | None => None end.
@@ -325,42 +324,50 @@ Proof. unfold repv. destruct (vis rho) eqn:E; [exact E|exact Hr0]. Qed.
 
 (* THE ASSUMPTION about the family, for this firing of the block: two visitors with different
    arriving arguments enter a join and differ on a deciding condition, whose operands are
-   valid for both and are not themselves merged by a phi of this block *)
-Definition picks_decided_at (phis : list stmt) : Prop :=
-  forall m x op args k sv stt, In (SSubst m x op (EPhi args k) sv stt) phis -> stores_local c x = true ->
+   valid for both and are not merged by a phi of this block that stands BEFORE the phi in
+   question (the condition is read by Spec.DegSem.cond_fixed in the store of the phi step: an
+   earlier phi of the block has already overwritten its target there; the target of the phi
+   itself and of later ones are still those of the entry).  [done0]: the targets already fired. *)
+Definition picks_decided_at (done0 : list vname) (phis : list stmt) : Prop :=
+  forall pre m x op args k sv stt post, phis = pre ++ SSubst m x op (EPhi args k) sv stt :: post ->
+  stores_local c x = true ->
   forall r1 r2, vis r1 = true -> vis r2 = true -> arg_at x args r1 <> arg_at x args r2 ->
     (2 <= length (b_preds b))%nat /\
     exists cond v1 v2, decides c idom b cond /\ cval (ent0 r1) cond = Some v1 /\ cval (ent0 r2) cond = Some v2 /\
                        v1 [] <> v2 [] /\
-                       forall y, In y (expr_reads cond) -> Pv r1 y /\ Pv r2 y /\ ~ In y (local_targets allphis).
+                       forall y, In y (expr_reads cond) -> Pv r1 y /\ Pv r2 y /\ ~ In y done0 /\ ~ In y (local_targets pre).
 
 Lemma phis_all phis : forall (done : list vname) (cur : V -> cstore) (S : fstore V),
   Forall (fun s => is_phi_stmt s = true) phis ->
   (forall st, In st phis -> In st (all_stmts (c_blocks c))) ->
   freachable S ->
-  (forall y, In y done -> In y (local_targets allphis)) ->
   (forall rho, vis rho = true -> sync_on (fun x => Pv rho x \/ In x done) rho (cur rho) S) ->
   (forall rho, vis rho = false -> sync_on (fun x => Pv rho x /\ ~ In x done) rho (cur rho) S) ->
   (forall rho, vis rho = true -> forall y, ~ In y done -> cur rho y = ent0 rho y) ->
   (forall rho, vis rho = true -> cexec_phis c (Lof rho) (cur rho) phis <> None) ->
   (forall rho, vis rho = true -> forall x args a, arg_at x args rho = Some a -> Pv rho a) ->
-  picks_decided_at phis ->
-  (forall x, In x (local_targets phis) -> In x (local_targets allphis) /\ forall bq, phi_block_of c x bq -> bq = b) ->
+  picks_decided_at done phis ->
+  (forall x, In x (local_targets phis) -> forall bq, phi_block_of c x bq -> bq = b) ->
   exists S', freachable S' /\
     (forall rho, vis rho = true -> forall s', cexec_phis c (Lof rho) (cur rho) phis = Some s' ->
        sync_on (fun x => Pv rho x \/ In x (local_targets phis ++ done)) rho s' S') /\
     (forall rho, vis rho = false -> sync_on (fun x => Pv rho x /\ ~ In x (local_targets phis ++ done)) rho (cur rho) S').
 Proof.
-  induction phis as [|st tl IH]; intros done cur S Hphi Hin Hreach Hdone Hv Hnv Hent Hrun Harg Hpd Huniq.
+  induction phis as [|st tl IH]; intros done cur S Hphi Hin Hreach Hv Hnv Hent Hrun Harg Hpd Huniq.
   - exists S. split; [exact Hreach|]. split.
     + intros rho Ev s' [= <-]. apply Hv. exact Ev.
     + intros rho Ev. apply Hnv. exact Ev.
   - assert (Hin' : forall st0, In st0 tl -> In st0 (all_stmts (c_blocks c))) by (intros; apply Hin; right; assumption).
-    assert (Hpd' : picks_decided_at tl).
-    { intros m x op args k sv stt Hi. apply (Hpd m x op args k sv stt). right. exact Hi. }
+    assert (Hpd' : picks_decided_at (local_targets [st] ++ done) tl).
+    { intros pre m x op args k sv stt post E Hl r1 r2 E1 E2 Hne.
+      destruct (Hpd (st :: pre) m x op args k sv stt post (f_equal (cons st) E) Hl r1 r2 E1 E2 Hne) as (Hj & cond & v1 & v2 & Hd & H1 & H2 & Hdf & Hcr).
+      split; [exact Hj|]. exists cond, v1, v2. repeat (split; [assumption|]).
+      intros y Hy. destruct (Hcr y Hy) as (P1 & P2 & N1 & N2). split; [exact P1|]. split; [exact P2|].
+      rewrite local_targets_cons in N2. split; [|intros H; apply N2; apply in_or_app; right; exact H].
+      intros H. apply in_app_or in H as [H|H]; [apply N2; apply in_or_app; left; exact H|exact (N1 H)]. }
     assert (Hmem : forall y d, In y (local_targets (st :: tl) ++ d) <-> In y (local_targets tl ++ (local_targets [st] ++ d)))
       by (intros; apply local_targets_mem).
-    assert (Huniq' : forall x, In x (local_targets tl) -> In x (local_targets allphis) /\ forall bq, phi_block_of c x bq -> bq = b).
+    assert (Huniq' : forall x, In x (local_targets tl) -> forall bq, phi_block_of c x bq -> bq = b).
     { intros x Hx. apply Huniq. rewrite local_targets_cons. apply in_or_app. right. exact Hx. }
     apply Forall_cons_iff in Hphi as [Hphi1 Hphi].
     destruct (match st with SSubst _ x _ (EPhi _ _) _ _ => stores_local c x | _ => false end) eqn:Eloc.
@@ -369,7 +376,7 @@ Proof.
         by (unfold DegRunBranch.local_targets; cbn [flat_map]; rewrite Eloc; reflexivity).
       assert (Hxin : In x (local_targets (SSubst m x op (EPhi args k) sv stt :: tl)))
         by (rewrite local_targets_cons, Ht1; left; reflexivity).
-      destruct (Huniq x Hxin) as [Hxall Hxb].
+      pose proof (Huniq x Hxin) as Hxb.
       destruct (stores_local_spec c x Eloc) as [Hd Hp].
       (* every visitor finds its argument *)
       assert (Hok : forall rho, vis rho = true -> exists a v, arg_at x args rho = Some a /\ cur rho a = Some v).
@@ -401,13 +408,13 @@ Proof.
           destruct (Hpick r1) as (a1 & w1 & Ha1 & Hp1 & _). destruct (Hpick r2) as (a2 & w2 & Ha2 & Hp2 & _).
           assert (Hne : arg_at x args (repv r1) <> arg_at x args (repv r2)).
           { rewrite Ha1, Ha2. intros [= Heq]. rewrite Hp1, Hp2, Heq, vname_eqb_refl in E. discriminate. }
-          destruct (Hpd m x op args k sv stt (or_introl eq_refl) Eloc (repv r1) (repv r2) (repv_vis r1) (repv_vis r2) Hne)
+          destruct (Hpd [] m x op args k sv stt tl eq_refl Eloc (repv r1) (repv r2) (repv_vis r1) (repv_vis r2) Hne)
             as (Hjoin & cond & v1 & v2 & Hdec & Hv1 & Hv2 & Hdiff & Hcr).
           destruct Hor as [Hlt|Hall]; [lia|].
           specialize (Hall cond Hdec). unfold cond_fixed in Hall.
           assert (Hcur : forall r, vis r = true -> cval (cur r) cond = cval (ent0 r) cond).
           { intros r Er. apply cval_ext. intros y Hy. apply (Hent r Er). intros Hyd.
-            destruct (Hcr y Hy) as (_ & _ & Hn). apply Hn. apply Hdone. exact Hyd. }
+            destruct (Hcr y Hy) as (_ & _ & Hn & _). apply Hn. exact Hyd. }
           destruct (cval_den_on V p sem2 sem1 call_sem name_code (fun x0 => Pv (repv r1) x0 \/ In x0 done) (repv r1) (cur (repv r1)) S cond v1)
             as (C1 & HC1 & Hr1).
           { apply Hv. apply repv_vis. }
@@ -426,7 +433,6 @@ Proof.
         cbn [DegRun.cexec_phi]. rewrite Eloc. unfold arg_at in Ha.
         destruct (vget (Lof rho) (key_of x)) as [n|]; [|discriminate]. rewrite Ha, Hc. reflexivity. }
       destruct (IH (x :: done) cur1 S1 Hphi Hin' Hreach1) as (S' & Hr' & Hvis' & Hnv').
-      { intros y [<-|Hy]; [exact Hxall|apply Hdone; exact Hy]. }
       { intros rho Ev y w Hy Hc. unfold cur1 in Hc. rewrite Ev in Hc.
         destruct (Hstep rho Ev) as (a & v & Ha & Hca & Hs). rewrite Hs in Hc.
         unfold cupd in Hc. unfold S1, fupd. destruct (vname_eqb x y) eqn:E.
@@ -448,7 +454,7 @@ Proof.
         destruct (Hstep rho Ev) as (a & v & _ & _ & Hs). rewrite Hs in Hrun.
         unfold cur1. rewrite Ev, Hs. exact Hrun. }
       { exact Harg. }
-      { exact Hpd'. }
+      { rewrite Ht1 in Hpd'. exact Hpd'. }
       { exact Huniq'. }
       exists S'. split; [exact Hr'|]. split.
       * intros rho Ev s' Hs'. cbn [DegRun.cexec_phis] in Hs'.
@@ -465,10 +471,10 @@ Proof.
       assert (Ht1 : local_targets [st] = []).
       { unfold DegRunBranch.local_targets. cbn [flat_map]. destruct st as [| | |m x op rhe sv stt| | |]; try reflexivity.
         destruct rhe; try discriminate. rewrite Eloc. reflexivity. }
-      destruct (IH done cur S Hphi Hin' Hreach Hdone Hv Hnv Hent) as (S' & Hr' & Hvis' & Hnv').
+      destruct (IH done cur S Hphi Hin' Hreach Hv Hnv Hent) as (S' & Hr' & Hvis' & Hnv').
       { intros rho Ev. specialize (Hrun rho Ev). cbn [DegRun.cexec_phis] in Hrun. rewrite Hskip in Hrun. exact Hrun. }
       { exact Harg. }
-      { exact Hpd'. }
+      { rewrite Ht1 in Hpd'. exact Hpd'. }
       { exact Huniq'. }
       exists S'. split; [exact Hr'|]. split.
       * intros rho Ev s' Hs'. cbn [DegRun.cexec_phis] in Hs'. rewrite Hskip in Hs'.
@@ -599,8 +605,7 @@ Fixpoint reads_live (L : vmap) (ss : list stmt) : Prop :=
 Definition picks_decided_sched : Prop :=
   forall t b, (t < NS)%nat -> nth_error (c_blocks c) (blkf t) = Some b ->
     picks_decided_at V p sem2 sem1 call_sem name_code c idom (fun rho => visf rho t) (fun rho => Valid rho t)
-                     (fun rho => Lats rho t) b (fun rho => ents rho t) (fst (leading_phis (b_stmts b)))
-                     (fst (leading_phis (b_stmts b))).
+                     (fun rho => Lats rho t) b (fun rho => ents rho t) [] (fst (leading_phis (b_stmts b))).
 
 Hypothesis Hreps : forall rho, exists r, In r reps /\ forall t, visf r t = visf rho t.
 Hypothesis Hrun : forall rho, cexec_nocheck L0 (s0 rho) (pre rho NS) <> None.
@@ -762,12 +767,11 @@ Proof.
     assert (Hphis_ok : forall rho, vis rho = true -> cexec_phis c (Lats rho t) (ents rho t) phis <> None).
     { intros rho Ev Hn. specialize (Hblock rho Ev). unfold DegRun.cexec_block in Hblock. rewrite Elp, Hn in Hblock. discriminate. }
     destruct (phis_all V p sem2 sem1 call_sem name_code c idom S0 vis r0 Hr0 (fun rho => Valid rho t) (fun rho => Lats rho t) b
-                (fun rho => ents rho t) phis phis [] (fun rho => ents rho t) St)
+                (fun rho => ents rho t) phis [] (fun rho => ents rho t) St)
       as (S1 & Hreach1 & Hvis1 & Hnv1).
     { exact (leading_phis_are_phis _ _ _ Elp). }
     { intros st Hs. apply Hall. rewrite Hpb. apply in_or_app. left. exact Hs. }
     { exact Hreach. }
-    { intros y []. }
     { intros rho _. eapply sync_on_weaken; [|apply Hsync]. intros y [Hy|[]]. exact Hy. }
     { intros rho _. eapply sync_on_weaken; [|apply Hsync]. intros y [Hy _]. exact Hy. }
     { intros rho _ y _. reflexivity. }
@@ -775,7 +779,7 @@ Proof.
     { intros rho Ev x args a Ha. unfold arg_at in Ha. destruct (vget (Lats rho t) (key_of x)) as [n|] eqn:En; [|discriminate].
       destruct (phi_arg_spec x n args a Ha) as [Hk Hver]. apply live_valid; [lia|]. unfold live. rewrite Hk, En, Hver. reflexivity. }
     { pose proof (Hpick t b Ht Hb) as H. rewrite Elp in H. exact H. }
-    { intros x Hx. split; [exact Hx|]. intros bq (Hbq & m & op & args & k & sv & stt & Hphi).
+    { intros x Hx bq (Hbq & m & op & args & k & sv & stt & Hphi).
       pose proof Hsa as Hnd. rewrite (local_targets_blocks c) in Hnd.
       apply (nodup_flat_map_same _ _ Hnd bq b x Hbq Hinb).
       - eapply (in_local_targets c); [exact Hphi|]. eapply local_targets_local; eauto.
@@ -848,13 +852,17 @@ Proof.
   unfold targets_versioned. rewrite forallb_forall. intros H Hx. specialize (H x Hx). destruct (vn_version x); [discriminate|discriminate].
 Qed.
 
-Lemma update_bases_fresh_sound c s w : update_bases_fresh c = true -> In s (all_stmts (c_blocks c)) ->
-  update_base s = Some w -> ~ In w (local_targets c (all_stmts (c_blocks c))).
+Lemma update_bases_fresh_sound infos c i info b phis body : update_bases_fresh infos c = true ->
+  nth_error infos i = Some info -> nth_error (c_blocks c) i = Some b -> leading_phis (b_stmts b) = (phis, body) ->
+  ubf_body c (bi_in info) body = true.
 Proof.
-  unfold update_bases_fresh. rewrite forallb_forall. intros H Hs Hw Hin. specialize (H s Hs). rewrite Hw in H.
-  apply negb_true_iff in H.
-  assert (E : existsb (vname_eqb w) (local_targets_m c) = true) by (apply existsb_exists; exists w; split; [exact Hin|apply vname_eqb_refl]).
-  congruence.
+  unfold update_bases_fresh. rewrite forallb_forall. intros H Hi Hb Elp.
+  assert (Hin : In (info, b) (combine infos (c_blocks c))).
+  { clear -Hi Hb. revert infos Hi Hb. generalize (c_blocks c) as bs.
+    induction i as [|i IH]; intros [|b0 bs] [|i0 is_]; cbn; try discriminate.
+    - intros [= ->] [= ->]. left. reflexivity.
+    - intros H1 H2. right. eapply IH; eauto. }
+  specialize (H _ Hin). cbn [fst snd] in H. rewrite Elp in H. exact H.
 Qed.
 
 Lemma no_future_version_sound infos c i info a b x : no_future_version infos c = true ->
@@ -871,21 +879,58 @@ Proof.
 Qed.
 
 (* a block that passes the validator's run reads running versions only *)
-Lemma body_run_reads_live c : targets_versioned c = true -> update_bases_fresh c = true ->
-  forall ss m m', (forall s, In s ss -> In s (all_stmts (c_blocks c))) -> body_run m ss = Some m' ->
+Lemma body_run_reads_live c : targets_versioned c = true ->
+  forall ss m m0 m', meq m m0 -> ubf_body c m0 ss = true -> body_run m ss = Some m' ->
   reads_live c m ss.
 Proof.
-  intros Htv Hub. induction ss as [|s tl IH]; intros m m' Hin H; cbn [reads_live]; [exact I|].
-  cbn [body_run] in H. destruct (body_stmt_ok m s) eqn:Eb; [|discriminate]. split.
+  intros Htv. induction ss as [|s tl IH]; intros m m0 m' Hm Hu H; cbn [reads_live]; [exact I|].
+  cbn [body_run] in H. destruct (body_stmt_ok m s) eqn:Eb; [|discriminate].
+  cbn [ubf_body] in Hu. apply andb_true_iff in Hu as [Hu1 Hu2]. split.
   - unfold body_stmt_ok in Eb. apply andb_true_iff in Eb as [_ Hr]. rewrite forallb_forall in Hr.
     intros y Hy. specialize (Hr y Hy). unfold read_ok in Hr. unfold live.
     destruct (vn_version y) as [n|] eqn:Ev.
-    + destruct (vget m (key_of y)) as [n'|].
+    + destruct (vget m (key_of y)) as [n'|] eqn:Eg.
       * apply N.eqb_eq in Hr. subst n'. right. reflexivity.
       * destruct (update_base s) as [w|] eqn:Ew; [|discriminate]. apply vname_eqb_eq in Hr. subst w.
-        left. eapply update_bases_fresh_sound; eauto. apply Hin. left. reflexivity.
+        left. rewrite <- (Hm (key_of y)), Eg in Hu1. apply negb_true_iff in Hu1. intros Hin.
+        assert (E : existsb (vname_eqb y) (local_targets_m c) = true) by (apply existsb_exists; exists y; split; [exact Hin|apply vname_eqb_refl]).
+        congruence.
     + left. intros Hin'. exact (targets_versioned_sound c y Htv Hin' Ev).
-  - apply (IH (track m s) m'); [intros; apply Hin; right; assumption|exact H].
+  - apply (IH (track m s) (track m0 s) m'); [apply meq_track; exact Hm|exact Hu2|exact H].
+Qed.
+
+(* entering a block along an edge: after the phis the running map is the validator's entry map
+   (the middle of the proof of Proofs.SsaProofs.enter_step) *)
+Lemma enter_in_meq c infos p s ip is_ bs_ L phis body :
+  nth_error infos p = Some ip -> nth_error infos s = Some is_ -> nth_error (c_blocks c) s = Some bs_ ->
+  edge_ok infos (c_blocks c) p s = true -> block_ok is_ bs_ = true -> meq L (bi_out ip) ->
+  leading_phis (b_stmts bs_) = (phis, body) -> meq (apply_phis L phis) (bi_in is_).
+Proof.
+  intros Hip His Hbs He Hblk HL Elp.
+  unfold edge_ok in He. rewrite Hip, His, Hbs in He. rewrite forallb_forall in He.
+  unfold block_ok in Hblk. rewrite Elp in Hblk. apply andb_true_iff in Hblk as [Hnd _].
+  assert (Hall : forall k, edge_key_ok ip is_ bs_ k = true).
+  { intros k. unfold edge_key_ok at 1.
+    destruct (vget (bi_out ip) k) as [n|] eqn:Eo.
+    - assert (Hin : In k (map fst (bi_out ip) ++ map fst (bi_in is_) ++ phi_key_list bs_))
+        by (apply in_or_app; left; eapply vget_some_in; eauto).
+      specialize (He k Hin). unfold edge_key_ok in He. rewrite Eo in He. exact He.
+    - rewrite Elp. cbn [fst].
+      destruct (find_phi phis k) as [[x args]|] eqn:Ef.
+      + assert (Hin : In k (map fst (bi_out ip) ++ map fst (bi_in is_) ++ phi_key_list bs_)).
+        { apply in_or_app; right. apply in_or_app; right.
+          unfold phi_key_list. rewrite Elp. cbn [fst]. eapply find_phi_key_in; eauto. }
+        specialize (He k Hin). unfold edge_key_ok in He. rewrite Eo, Elp in He. cbn [fst] in He. rewrite Ef in He. exact He.
+      + destruct (vget (bi_in is_) k) as [n|] eqn:Ei; [|reflexivity].
+        assert (Hin : In k (map fst (bi_out ip) ++ map fst (bi_in is_) ++ phi_key_list bs_))
+          by (apply in_or_app; right; apply in_or_app; left; eapply vget_some_in; eauto).
+        specialize (He k Hin). unfold edge_key_ok in He. rewrite Eo, Elp in He. cbn [fst] in He.
+        rewrite Ef, Ei in He. exact He. }
+  intros k. rewrite (vget_apply_phis phis L k Hnd).
+  specialize (Hall k). unfold edge_key_ok in Hall. rewrite Elp in Hall. cbn [fst] in Hall.
+  destruct (find_phi phis k) as [[x args]|].
+  - apply andb_true_iff in Hall as [_ Hall]. apply optN_eqb_eq in Hall. symmetry. exact Hall.
+  - apply optN_eqb_eq in Hall. rewrite (HL k). exact Hall.
 Qed.
 
 (* ---------- schedules that fire the blocks in index order, once per ascending segment ---------- *)
@@ -945,7 +990,7 @@ Hypothesis Hok : infos_ok infos c = true.
 Hypothesis Hidx : forall i b, nth_error (c_blocks c) i = Some b -> b_index b = N.of_nat i.
 Hypothesis Hsa : NoDup alltgts.
 Hypothesis Htv : targets_versioned c = true.
-Hypothesis Hub : update_bases_fresh c = true.
+Hypothesis Hub : update_bases_fresh infos c = true.
 Hypothesis Hnf : no_future_version infos c = true.
 
 Lemma sg_len rho : length (sg rho) = K.
@@ -1046,7 +1091,8 @@ Proof.
     destruct (SsaProofs.block_facts c infos Hok 0 b0 Hb0) as (i0' & Hi0' & Hblk). rewrite Hi0 in Hi0'. injection Hi0' as <-.
     unfold block_ok in Hblk. rewrite Elp in Hblk. apply andb_true_iff in Hblk as [_ Hbody]. rewrite Hin0 in Hbody.
     destruct (body_run L0 body) as [o|] eqn:Ebr; [|discriminate].
-    cbn. exact (body_run_reads_live c Htv Hub body _ _ Hallb Ebr).
+    cbn. apply (body_run_reads_live c Htv body L0 (bi_in i0) o); [rewrite Hin0; apply meq_refl| |exact Ebr].
+    exact (update_bases_fresh_sound infos c 0 i0 b0 [] body Hub Hi0 Hb0 Elp).
   - destruct (pre_walk rho t (K * n - t) ltac:(lia)) as (tl & rest & Ept & Econ & W & il & Hil & Hm); [rewrite Ep; discriminate|].
     rewrite Ep in Ept, Hm. injection Ept as -> ->.
     assert (Erest : rest = blk_s t :: rest1).
@@ -1057,7 +1103,8 @@ Proof.
     destruct (SsaProofs.block_facts c infos Hok _ b Hb) as (ib & Hib & Hblk).
     destruct (SsaProofs.enter_step c infos _ _ il ib b _ Hil Hib Hb He Hblk Hm) as (L' & HL' & _).
     unfold enter_block in HL'. rewrite Elp in HL'. destruct (forallb (phi_read_ok _) phis); [|discriminate].
-    exact (body_run_reads_live c Htv Hub body _ _ Hallb HL').
+    apply (body_run_reads_live c Htv body _ (bi_in ib) L'); [|exact (update_bases_fresh_sound infos c _ ib b phis body Hub Hib Hb Elp)|exact HL'].
+    exact (enter_in_meq c infos _ _ il ib b _ phis body Hil Hib Hb He Hblk Hm Elp).
 Qed.
 
 
@@ -1130,7 +1177,7 @@ End Segments.
 Require Import Proofs.PolyDegProofs Proofs.DegreeProofs Proofs.DegGraphProofs Proofs.DegGraphRooted.
 
 Lemma loops_ok_parts infos c : loops_ok infos c = true ->
-  single_assignment c /\ targets_versioned c = true /\ update_bases_fresh c = true /\ no_future_version infos c = true.
+  single_assignment c /\ targets_versioned c = true /\ update_bases_fresh infos c = true /\ no_future_version infos c = true.
 Proof.
   unfold loops_ok. intros H. apply andb_true_iff in H as [H H4]. apply andb_true_iff in H as [H H3].
   apply andb_true_iff in H as [H1 H2]. split; [apply single_assignment_b_sound; exact H1|auto].
@@ -1287,7 +1334,39 @@ Definition C07_valuation_dependent_trip_counts_full_statement : Prop :=
 
 (* ... and the part of OPEN (a) that is left: the assumption [picks_decided_sched] of
    [loops_runs_represented] derived from the graph, as Proofs.DegRunDecided does for loop-free
-   graphs *)
+   graphs.  FOURTH AUDIT: without a side condition this is FALSE for a shape real lifting
+   produces.  (i) The reviewer's witness - a header with two back edges,
+   `while (k<3) { k=k+1; if (a==x) {x=k;} else {x=2;} }`, phis k.1, x.1, parting condition
+   `a == x.1` - contradicted the FIRST form of the assumption, which forbade a deciding
+   condition to read ANY phi target of the block; the proof only needs that it reads no target
+   of a phi standing BEFORE the phi in question (those are the cells already overwritten when
+   Spec.DegSem.cond_fixed reads the store), the assumption now says that, and the witness
+   satisfies it (Proofs.DegRunLoopsExample.header_two_back_edges_example: every hypothesis of
+   the theorem, on that graph, for two runs that part).  (ii) What remains false: with a THIRD
+   merged variable, `.. if (a==x) {x=k; z=1;} else {x=2; z=2;} ..` (header phis k.1, x.1, z.1 in
+   this order on the real tool), two runs arrive with different arguments for z.1 and every
+   condition that separates them reads x.1, the target of an earlier phi: when the phi of z.1
+   fires in block order, x.1 is already overwritten.  The relation itself has no program
+   counter and could fire the phi of z.1 first; this proof does not (it fires the leading phis
+   in block order), and when two merged variables both occur in the parting condition no order
+   helps.  The side condition [deciders_avoid_earlier_phis] excludes exactly that: a condition
+   [decides] names for a block b, ending a block OTHER than b (the header's own loop condition
+   always reads its phis, but two runs that are both back at the header in the same segment
+   were not parted by it), reads no target of a phi of b that stands before another phi of b.
+   WHAT THE ANALYSIS CLAIMS THERE, and why it is believed sound: the validator judges every phi
+   of the header with the control of the header (Model.Propagate.block_ctl: all deciding
+   conditions, `a == x.1` among them); `a` is a signal, so the control is not constant and every
+   phi of the header carries no claim or upper end NonQuadratic
+   ([varying_decider_phi_no_low_claim]); nothing is claimed that a finer relation could refute. *)
+Definition deciders_avoid_earlier_phis (c : cfg) (idom : list (option N)) : Prop :=
+  forall b pre st post, In b (c_blocks c) -> fst (leading_phis (b_stmts b)) = pre ++ st :: post ->
+  forall p q bq m cond t f,
+    In p (b_preds b) ->
+    above idom (match nth_error idom (N.to_nat (b_index b)) with Some o => o | None => None end) p q ->
+    nth_error (c_blocks c) (N.to_nat q) = Some bq -> last (b_stmts bq) (SLog m []) = SIf m cond t f ->
+    q <> b_index b ->
+    forall y, In y (expr_reads cond) -> ~ In y (local_targets c pre).
+
 Definition C07_loops_picks_decided_full_statement : Prop :=
   forall (V : Type) (p : Z) (sem2 : infix_op -> Z -> Z -> Z) (sem1 : prefix_op -> Z -> Z)
          (call_sem : ident -> list Z -> Z) (name_code : ident -> Z)
@@ -1295,6 +1374,7 @@ Definition C07_loops_picks_decided_full_statement : Prop :=
          (sg : V -> list (list nat)) (heads : list nat) (s0 s : V -> cstore) (reps : list V),
   infos_ok infos c = true -> deg_graph_ok c idom = true -> idom_shape c idom = true -> loops_ok infos c = true ->
   dom_graph_of c = MirrorsDom.to_dom g -> Lift.lift body = Ok g ->
+  deciders_avoid_earlier_phis c idom ->
   (forall rho, map (hd 0%nat) (sg rho) = heads /\ Forall (fun seg => seg <> []) (sg rho)) ->
   (forall rho, Forall (StronglySorted lt) (sg rho)) ->
   (forall rho, exists r, In r reps /\ sg r = sg rho) ->
